@@ -207,6 +207,7 @@ fn rand_script(rng: &mut Rng) -> Script {
         3 => -0.0,
         4 => f64::MAX,
         5 => f64::from_bits(1),
+        6 => f32::from_bits(rng.next() as u32) as f64,
         _ => f64::from_bits(rng.next()),
     };
     let r = rng.next();
@@ -406,6 +407,13 @@ fn direct_shard(ctx: &Ctx, shard: usize, shards: usize) -> Acc {
     }
     for i in 0..ctx.scaled(if ctx.thorough { 600_000 } else { 20_000 }) {
         f64_direct(&mut acc, rng.next(), i % 64 == 0);
+        // an f32 reading widened to f64 (its shortest f32 digits do not denote the same f64)
+        let w = f32::from_bits(rng.next() as u32) as f64;
+        f64_direct(&mut acc, w.to_bits(), i % 64 == 1);
+    }
+    for w in [0.1f32, 0.2, 0.3, 1.1, 3.3, 1e10, 1e-10, 16777217.0, 1.0e38] {
+        f64_direct(&mut acc, (w as f64).to_bits(), true);
+        f64_direct(&mut acc, (-(w as f64)).to_bits(), true);
     }
     // integers: 8 and 16 bit exhaustively (split over shards), wider at boundaries + random
     for v in 0..=u16::MAX {
